@@ -98,7 +98,7 @@ Proof.
   destruct (negb (compatible (cver s) v)); [inv H; constructor|].
   destruct (dup_addr s (p_id p) (p_addr p)) eqn:Edup; [inv H; constructor|].
   destruct (sv s (p_id p)) as [old|] eqn:Eold.
-  - destruct (if force then (p_labels p, s_cells old) else merge_labels (s_cells old) (p_labels p)) as [ls cells'].
+  - destruct (if force then (p_labels p, s_cells old) else merge_labels (s_cells old) (s_cap old) (p_labels p)) as [ls cells'].
     match type of H with context [put_locked ?a ?b ?c ?d ?e] => destruct (put_locked a b c d e) as [s1 ok] eqn:Epl end.
     inv H. rewrite (put_locked_sv _ _ _ _ _ _ _ Epl j), sv_set_served.
     zeq (p_id p) j; [|rewrite andb_false_r; constructor].
@@ -293,7 +293,7 @@ Proof.
   destruct (is_tomb x); [inv H; constructor|].
   destruct (if s_hbp x then (false, true) else wr f id 0) as [applied ok].
   match type of H with context [roll_add ?a ?b] => set (s2 := roll_add a b) in * end.
-  assert (Es : sv s2 j = if id =? j then Some (SStore (s_addr x) (s_state x) (s_pd x) (renumber (labels_of (s_cells x))) (s_ver x)
+  assert (Es : sv s2 j = if id =? j then Some (SStore (s_addr x) (s_state x) (s_pd x) (renumber (labels_of (s_cells x))) (length (s_cells x)) (s_ver x)
                          (s_lw x) (s_rw x) (s_rcf x) (s_hbp x || ok) true) else sv s j).
   { subst s2. rewrite sv_roll_add, sv_set_served. destruct applied; reflexivity. }
   assert (E' : sv s' j = sv s2 j) by (destruct (existsb _ (rolling s2)); inv H; reflexivity).
@@ -400,6 +400,31 @@ Proof.
   intros Hc E T. apply is_tomb_true in T. unfold run_cmd. rewrite Hc. split.
   - intros p f <-. cbn [run_cmd0]. rewrite E, T. reflexivity.
   - intros f. cbn [run_cmd0]. unfold do_heartbeat. rewrite E, T. reflexivity.
+Qed.
+
+(* a successful RemoveStore(id, physically destroyed) leaves the store offline with the flag set, and from
+   then on UpStore is refused *)
+Lemma remove_destroyed_pf s id f s' :
+  crashed s = false -> run_cmd s (ORemove id true f) = (s', ROk) ->
+  (exists y, sv s' id = Some y /\ s_state y = Offline /\ s_pd y = true) /\
+  (forall f', run_cmd s' (OUp id f') = (s', RDestroyed)).
+Proof.
+  unfold run_cmd. intros Hc. rewrite Hc. cbn [run_cmd0]. unfold do_remove.
+  destruct (sv s id) as [x|] eqn:E; [|discriminate].
+  destruct (sstate_eqb (s_state x) Offline && Bool.eqb (s_pd x) true)%bool eqn:Eg.
+  - intros H; inv H. apply andb_true_iff in Eg as [E1 E2]. apply sstate_eqb_eq in E1.
+    assert (Ep : s_pd x = true) by (destruct (s_pd x); [reflexivity|discriminate]).
+    split; [eauto|]. intros f'. rewrite Hc. cbn [run_cmd0]. unfold do_up. rewrite E.
+    assert (Et : is_tomb x = false) by (apply is_tomb_false; congruence). rewrite Et, Ep. reflexivity.
+  - destruct (is_tomb x); [discriminate|]. destruct (s_pd x); [discriminate|].
+    destruct (put_locked s id (with_state x Offline true) f 0) as [s1 ok] eqn:Epl.
+    destruct ok; intros H; inv H.
+    assert (Es : sv s' id = Some (with_state x Offline true))
+      by (rewrite (put_locked_sv _ _ _ _ _ _ _ Epl), Z.eqb_refl; reflexivity).
+    assert (Ec : crashed s' = crashed s).
+    { unfold put_locked in Epl. destruct (wr f id 0) as [[|] [|]]; inv Epl; unfold roll_add; destruct (existsb _ _); reflexivity. }
+    split; [eexists; split; [exact Es|split; reflexivity]|].
+    intros f'. rewrite Ec, Hc. cbn [run_cmd0]. unfold do_up. rewrite Es. reflexivity.
 Qed.
 
 (* ---------- statement 2: buried only while empty ---------- *)
